@@ -1995,7 +1995,7 @@ func main() {
 
 	n := *count
 	if n == 0 {
-		n = 700
+		n = 600
 		if *tier == "thorough" {
 			n = 7000
 		}
